@@ -76,9 +76,9 @@ EPS = R.EPS
 # an explicit inverse), (n+1)^4 for differentiation (entries of the differentiation matrix
 # are O(n^2), each built from an n-fold product, and |P'| <= n^2 max|P|).
 # Calibration on the unchanged tree (quick seeds 0-4, thorough seeds 0-1, n up to 64): the
-# largest err/tol over all comparisons was 0.031 (evaluate), 0.028 (cardinal hook), 0.017
-# (basis change / dual), 0.008 (derivative), 0.011 (integrate) -- i.e. K=8 leaves a factor
-# >= 30; the per-run maxima are written to the evidence (residual_ratio).  Every mutant
+# largest err/tol over all comparisons was 0.033 (evaluate), 0.028 (cardinal hook), 0.024
+# (basis change), 0.021 (dual), 0.008 (derivative), 0.012 (integrate) -- i.e. K=8 leaves a
+# factor >= 30; the per-run maxima are written to the evidence (residual_ratio).  Every mutant
 # tried (wrong node, weight, index range, matrix entry, parity, axis) moved results by
 # >= 1e-3 relative, >= 1e8 * tol, so the margin costs no sensitivity.
 K = 8.0
